@@ -2,7 +2,7 @@
     agrees with the specification's ([sp_possible]) when type names are unique; boolean variables of a
     plain selection set. *)
 From V Require Import Base.Util Gql.Ast Writer.Wop Ts.TsType Ts.TsDen
-     C01.Model C01.Spec C01.TsLemmas C01.TreeDen C01.Proofs C01.EnvDen C01.PlainBase C01.PlainCore.
+     C01.Model C01.Spec C01.Guards C01.TsLemmas C01.TreeDen C01.Proofs C01.EnvDen C01.PlainBase C01.PlainCore.
 
 Definition typedefs (S : tsdoc) : list typedef :=
   flat_map (fun d => match d with TSType t => [t] | _ => [] end) S.
